@@ -58,7 +58,7 @@ def cases(tier, rng, schema, feats):
     # members that are parsed and ignored (the legacy rp icon / url, unknown members) or copied into feature-independent buffers, with
     # sizes at and around every constant of src/sizes.rs and its neighbours (+-1, +-64): a limit derived from a feature-dependent
     # constant shows as the same request accepted in one build and refused in another
-    big = (0, 1, 128, 129, 255, 256, 1023, 1024, 1025, 2047, 2048, 2049, 2944, 3007, 3008, 3009, 3071, 3072, 3073, 4000, 7000, 7609)
+    big = (0, 1, 128, 129, 255, 256, 1023, 1024, 1025, 2047, 2048, 2049, 2944, 3007, 3008, 3009, 3071, 3072, 3073, 4000, 7000, 7609) + tuple(gen.novel_sizes(20000))
     ch = cbor.enc(rng.bytes(32))
     for L in big:
         txt = "i" * L
